@@ -385,7 +385,7 @@ func (p *Parser) parseCreateTable(temporary bool) (*ast.CreateTableStatement, er
 	// Parse optional table options
 	for p.isTokenMatch("ENGINE") || p.isTokenMatch("CHARSET") ||
 		p.isType(models.TokenTypeCollate) || p.isTokenMatch("COMMENT") {
-		opt := ast.TableOption{Name: p.currentToken.Literal}
+		opt := ast.TableOption{Name: p.keywordSpelling()} // ENGINE, CHARSET, COLLATE, COMMENT however written
 		p.advance()
 		if p.isType(models.TokenTypeEq) {
 			p.advance() // Consume =
